@@ -12,10 +12,11 @@ import "git.metabarcoding.org/obitools/obitools4/obitools4/pkg/obiseq"
 //verif:stub (MOD/pkg/obiapat.ApatPattern).Len = vPatLen
 //verif:stub (MOD/pkg/obiapat.ApatSequence).Len = vSeqLen
 
-const vL = 12
+const vDefaultL = 12
 
 type vGeometry struct {
 	fwd, crev, rev, cfwd []int // start positions of the exact matches of acg, taa, tta, cgt
+	L                    int   // template length (0: 12)
 }
 
 var vGeometries = []vGeometry{
@@ -31,6 +32,10 @@ var vGeometries = []vGeometry{
 	{},                              // 9 no site at all
 	{fwd: []int{2}},                 // 10 forward site only
 	{fwd: []int{0}, crev: []int{9}}, // 11 amplicon touching the end of the template
+	// long templates: the window in which the second primer is searched reaches 64 positions further than asked
+	{fwd: []int{0, 72}, crev: []int{80}, L: 90},  // 12 second locus far behind the first forward site
+	{rev: []int{1, 74}, cfwd: []int{83}, L: 90},  // 13 the same in reverse orientation
+	{fwd: []int{3}, crev: []int{84}, L: 90},      // 14 one long amplicon (beyond every max-length bound)
 }
 
 var (
@@ -129,6 +134,10 @@ func VerifC11_Pcr(geo, ext, full int) {
 		vSkip()
 	}
 	g := vGeometries[geo]
+	vL := g.L
+	if vL == 0 {
+		vL = vDefaultL
+	}
 	s := vBytes(vL, "acgt")
 	minLen, maxLen := vInt(0, 8), vInt(0, 8)
 	// the template holds each primer exactly at the sites of the geometry
